@@ -10,14 +10,14 @@ def run(run):
     GL.extract_facets(run)
     UF.c09_glue(run)
     # bounded stand-ins
-    per = 400 if run.tier == "quick" else 5000
+    per = 400 if run.tier == "quick" else 5000 * run.tmul
     jobs = [dict(seed=run.seed * 31 + k, count=per // 8) for k in range(8)]
     res, errs = native.pmap("contracts.gbslib", "nat_gbs_search", jobs)
     run.worker_errors(errs, len(jobs))
     ev = sum(r["evaluations"] for r in res if r and "_error" not in r)
     fails = [f for r in res if r and "_error" not in r for f in r["failures"]]
     run.bounded_result("compiled apply_gbs: all clauses on generated inputs (ties at the threshold, zero volumes, chi = 0)", "pydrex.utils.apply_gbs", f"{ev} inputs, n in 1..400", ev, fails, ev)
-    per = 2 if run.tier == "quick" else 20
+    per = 2 if run.tier == "quick" else 20 * run.tmul
     jobs = [dict(seed=run.seed, start=k * per, count=per) for k in range(12)]
     res, errs = native.pmap("contracts.scenarios", "run_gbs_scenarios", jobs)
     run.worker_errors(errs, len(jobs))
